@@ -176,6 +176,28 @@ func c04Vectors(cmd string, n int, k0 string) [][]string {
 		}
 	}
 	rec(0, nil)
+	if cmd == "keys" && n == 1 {
+		// the one command whose argument is a small language of its own: every glob pattern of up to
+		// three symbols over the metacharacters, against the keys of the pre-state (a pattern that the
+		// syntax check lets through and the matcher cannot handle crashes the connection goroutine)
+		const al = "a*?[]^-\\"
+		var gen func(p string)
+		gen = func(p string) {
+			if len(p) > 0 {
+				out = append(out, []string{p})
+			}
+			if len(p) >= 3 {
+				return
+			}
+			for i := 0; i < len(al); i++ {
+				gen(p + string(al[i]))
+			}
+		}
+		gen("")
+		for _, p := range []string{"*[^]a", "a[^]", "[^]*", "*[a-", "*\\", "[]]", "[^]]", "k[^]"} {
+			out = append(out, []string{p})
+		}
+	}
 	return out
 }
 
